@@ -119,6 +119,11 @@ func onceWrappers() []wrapped {
 			o := &adt.Once[int]{}
 			return func(ctx context.Context) int { o.Do(func() int { return p.run() }); return o.Resolve() }
 		}},
+		// Do alone (it has no result): a second Do may not return while the first is still running
+		{"adt.Once.Do(only)", func(p *probe, _ int) func(context.Context) int {
+			o := &adt.Once[int]{}
+			return func(ctx context.Context) int { o.Do(func() int { return p.run() }); return 1 }
+		}},
 		{"adt.Mnemonize", func(p *probe, _ int) func(context.Context) int {
 			w := adt.Mnemonize(func() int { return p.run() })
 			return func(ctx context.Context) int { return w() }
@@ -405,6 +410,68 @@ func waiter(name string) vs.Scenario {
 	}
 }
 
+// rewait: the waiter is first called with a context that is already over (that
+// call may return at once), then again with a live context: the second call
+// may not complete before the background execution has, and reports its result.
+func rewait(name string) vs.Scenario {
+	return func() (func(), func(*vs.End) (string, string)) {
+		finished, atReturn := 0, -1
+		var first, second error
+		sentinel := errN(1)
+		body := func() {
+			ctx, cancel := context.WithCancel(context.Background())
+			defer cancel()
+			dead, kill := context.WithCancel(context.Background())
+			kill()
+			wk := fun.Worker(func(context.Context) error { vs.Yield(); finished++; return sentinel })
+			switch name {
+			case "Worker.Launch":
+				w := wk.Launch(ctx)
+				first = w(dead)
+				second = w(ctx)
+			case "Worker.Background":
+				var got error
+				w := wk.Background(ctx, func(err error) {
+					if errors.Is(err, sentinel) {
+						got = err
+					}
+				})
+				w(dead)
+				w(ctx)
+				second = got
+			case "Operation.Launch":
+				w := fun.Operation(func(context.Context) { vs.Yield(); finished++ }).Launch(ctx)
+				w(dead)
+				w(ctx)
+				second = sentinel
+			case "Processor.Background":
+				w := fun.Processor[int](func(context.Context, int) error { vs.Yield(); finished++; return sentinel }).Background(ctx, 1)
+				first = w(dead)
+				second = w(ctx)
+			case "Producer.Launch":
+				w := fun.Producer[int](func(context.Context) (int, error) { vs.Yield(); finished++; return 1, nil }).Launch(ctx)
+				_, _ = w(dead)
+				_, _ = w(ctx)
+				second = sentinel
+			}
+			atReturn = finished
+		}
+		check := func(e *vs.End) (string, string) {
+			if atReturn >= 0 && atReturn < 1 {
+				return "waiter-returned-before-completion/after-abandoned-wait", fmt.Sprintf("%s: the second call of the waiter (live context) returned before the background execution finished (err=%v)", name, second)
+			}
+			// the result is delivered once: to the first call if it was already there
+			// when that call looked (its context was over, either answer is fine),
+			// otherwise to the second
+			if atReturn >= 1 && !errors.Is(second, sentinel) && !errors.Is(first, sentinel) {
+				return "waiter-lost-result/after-abandoned-wait", fmt.Sprintf("%s: neither call of the waiter returned the execution's result (first=%v, second=%v)", name, first, second)
+			}
+			return endTag(e)
+		}
+		return body, check
+	}
+}
+
 // retry: every result script; sequential.
 var outcomes = []string{"ok", "err", "skip", "eof", "abort", "ctx"}
 
@@ -615,6 +682,9 @@ func build(tier string) ([]runner.Instance, time.Duration) {
 	}
 	for _, name := range []string{"Operation.Launch", "Operation.Signal", "Worker.Launch", "Worker.Signal", "Worker.Background", "Worker.StartGroup", "Operation.StartGroup", "Operation.Add", "Producer.Launch", "Processor.Background"} {
 		add("waiter/"+name, "waiter/"+name, bound+1, waiter(name))
+	}
+	for _, name := range []string{"Worker.Launch", "Worker.Background", "Operation.Launch", "Processor.Background", "Producer.Launch"} {
+		add("rewait/"+name, "rewait/"+name, bound, rewait(name))
 	}
 	for _, kind := range []string{"Worker.Retry", "Producer.Retry", "Processor.Retry"} {
 		for n := 1; n <= 3; n++ {
